@@ -53,6 +53,9 @@ CLAIMS = {
 
  "C17": ("Structural necessary conditions of route resolution: canonicalise, refuse directory paths, exact lookup first with return on hit; the scan's candidate is replaced only by a longer matching pattern (iteration-order independent maximisation); lookups write only to copies and return copies; URL join offsets under the URL-ends-in-slash test; result pattern = requested path; pathMatch prefix/equality shape; the factory receives the matched route's fields. Does not decide the joined URL text for every URL form.",
          "SSA phi/guard pattern analysis + store-site ownership", "DESIGN.md §3 C17"),
+
+ "C18": ("Structural necessary conditions of durable, consistent tables: the persisting function never opens the destination for writing and on every success path writes, syncs, then renames a temporary file over it (crash atomicity decided from the order and targets of the file-system calls on every path, with error nil-ness correlation); table fields accessed only under the table lock; password kept unless asked; keys canonicalised before use; full list flushed and pending lists cleared only after success; default admin only when the file is missing. Does not decide model equality of table contents over histories.",
+         "SSA path-state over file-system effects + lockset", "DESIGN.md §3 C18"),
 }
 NA = {
 }
